@@ -5,6 +5,7 @@ use crate::fail;
 use crate::gen::{self, Phys, PhysOpts};
 use crate::oracle::graph::{q, qf, Q};
 use crate::oracle::lin;
+use crate::sut::{self, SutErr};
 use crate::with_d;
 use num::{Signed, Zero};
 use std::time::Instant;
@@ -164,7 +165,28 @@ fn check_d<const D: usize>(c: &Phys, ctx: &mut Ctx) -> Result<(), Failure> {
     if ctx.replay && std::env::var("VERIF_DEBUG").is_ok() {
         eprintln!("out = {:#?}\nxs = {:?}\nkappa = {:e} cv = {:e}", ev.out, ev.xs, ev.kappa, ev.cv);
     }
-    assert_c10(c, &ev, ctx)
+    assert_c10(c, &ev, ctx)?;
+    // the momenta a caller gets under the default settings (no metadata, no debug output) must satisfy the same
+    // identities; q, lambda, L and the shift of this point are taken from the evaluation above
+    if let Ok(s2) = sut::build::<D>(&c.g, c.kin.sig.clone()) {
+        let ed = sut::edge_data::<D>(&c.mass_given(), &c.kin.masses, &c.kin.shifts);
+        match sut::sample_f64(&s2, &c.x, ed, ev.stab, false, false) {
+            Ok(o2) => {
+                let mut ev2 = ev.clone();
+                ev2.out.k = o2.k.clone();
+                ev2.out.u = o2.u;
+                ev2.out.v = o2.v;
+                ev2.out.jac = o2.jac;
+                if let Err(f) = assert_c10(c, &ev2, ctx) {
+                    return Err(Failure { signature: format!("{}(return_metadata=false)", f.signature), message: format!("with return_metadata=false and print_debug_info=false: {}", f.message) });
+                }
+                ctx.label("default-settings:checked");
+            }
+            Err(SutErr::Panic(m)) => fail!("sample-panic", "sampling with the default settings panicked: {m}; case {c:?}"),
+            Err(_) => ctx.label("default-settings:sample-error"),
+        }
+    }
+    Ok(())
 }
 pub fn check(c: &Phys, ctx: &mut Ctx) -> Result<(), Failure> {
     phys::validate(c)?;
